@@ -422,7 +422,7 @@ class RDFWriter(object):
         if filename.find(RDF_CONVERSION_FORMATS.get(rdf_format)) < 0:
             filename_ext += RDF_CONVERSION_FORMATS.get(rdf_format)
 
-        with open(filename_ext, "w") as out_file:
+        with open(filename_ext, "w", encoding="utf-8") as out_file:
             out_file.write(data)
 
 
